@@ -39,13 +39,14 @@ func (r *Reader) Read(p []byte) (n int, err error) {
 		p = p[:b]
 	}
 	n, err = r.r.Read(p)
-	if err != nil {
+	if n <= 0 {
 		return
 	}
 
-	err = r.limiter.WaitN(context.Background(), n)
-	if err != nil {
-		return
+	// A reader may return data together with an error (e.g. the last bytes of a stream with io.EOF):
+	// these bytes are delivered too, so they have to be accounted for like any others.
+	if werr := r.limiter.WaitN(context.Background(), n); werr != nil && err == nil {
+		err = werr
 	}
 	return
 }
